@@ -18,6 +18,12 @@ type Node struct {
 	ID     string   `json:"id,omitempty"`     // files: unique id
 	Target string   `json:"target,omitempty"` // links: target text; a "$BASE" prefix is replaced by the absolute base
 	Loads  []string `json:"loads,omitempty"`  // files: locations the file's lisp content load-files, in order
+	// Defs: locations load-filed by FUNCTIONS the file defines: function k is
+	// named c20f-<ID>-<k> and its body is (load-file Defs[k]) -- the call
+	// expression is written in THIS file, whoever calls the function.
+	Defs []string `json:"defs,omitempty"`
+	// Calls: functions ("<ID>/<k>") the file calls after its own loads.
+	Calls []string `json:"calls,omitempty"`
 }
 
 // Sandbox is the JSON-serialisable description of one directory layout.
@@ -88,6 +94,42 @@ func (m *model) add(n *Node) bool {
 }
 
 func (m *model) abs(n *Node) string { return m.base + "/" + n.Path }
+
+// remove deletes a file or link node (history mutations); directories are
+// never removed.
+func (m *model) remove(n *Node) bool {
+	abs := m.abs(n)
+	if m.nodes[abs] != n || n.Kind == "dir" {
+		return false
+	}
+	delete(m.nodes, abs)
+	par := parentOf(abs)
+	ks := m.kids[par]
+	for i, k := range ks {
+		if k == lastOf(abs) {
+			m.kids[par] = append(append([]string(nil), ks[:i]...), ks[i+1:]...)
+			break
+		}
+	}
+	if n.Kind == "file" {
+		delete(m.files, n.ID)
+	}
+	return true
+}
+
+// reid gives a file node a new identity (its content was replaced).
+func (m *model) reid(n *Node, id string) bool {
+	if n.Kind != "file" || id == "" || m.nodes[m.abs(n)] != n {
+		return false
+	}
+	if _, dup := m.files[id]; dup {
+		return false
+	}
+	delete(m.files, n.ID)
+	n.ID = id
+	m.files[id] = n
+	return true
+}
 
 func parentOf(abs string) string {
 	i := strings.LastIndex(abs, "/")
